@@ -186,6 +186,44 @@ def _controlled_cases(ctx, corr):
             corr.oracle_fail(inp, "matrix differs", "block matrix", "controlled_gate is not 'U iff controls read the value'")
 
 
+def _controlled_model_cases(ctx, corr, disp):
+    """tie controlled_gate to the model (Sym.ptctrl, the object of controlled_gate_spec): for 1-3 controls, every value,
+    library single-qubit unitaries with symbolic parameters, compare the real matrix with the model table evaluated numerically"""
+    from qutip_qip.operations import controlled_gate
+    from qutip import Qobj
+    rng = ctx.rng
+    names = [n for n in ("RX", "RY", "RZ", "X", "Y", "Z", "S", "T", "SNOT", "PHASEGATE", "SQRTNOT") if n in disp]
+    cases = []
+    for nc in (1, 2, 3):
+        for cv in range(2 ** nc):
+            for name in rng.sample(names, ctx.n(2, len(names))):
+                cases.append((nc, cv, name))
+    body = DUMP.split("Eval")[0] + """
+Fixpoint assoc {A} (k : string) (l : list (string * A)) : option A :=
+  match l with [] => None | (k', v) :: l' => if String.eqb k k' then Some v else assoc k l' end.
+Definition one (c : nat * nat * string) := let '(nc, cv, nm) := c in
+  match assoc nm dispatch with Some m => dump (MCtrl nc cv m) | None => [] end.
+Eval vm_compute in map one [""" + "; ".join(f'({nc}%nat, {cv}%nat, "{nm}"%string)' for nc, cv, nm in cases) + "].\n"
+    tabs = parse_evals(coq_eval("c09_ctrl", body, timeout=300))[0]
+    for (nc, cv, name), tab in zip(cases, tabs):
+        npar = Q.N_PARAMS.get(name, 0)
+        params = [rng.choice([k * math.pi / 16 for k in range(-32, 33)]) for _ in range(npar)]
+        N = nc + 1 + rng.choice([0, 1])
+        qs = rng.sample(range(N), nc + 1)
+        inp = dict(kind="controlled_model", gate=name, params=params, N=N, controls=qs[:nc], target=qs[nc], control_value=cv)
+        corr.count(("ctrlm", nc, cv, name), nontrivial=True, sample=inp if rng.random() < 0.05 else None)
+        corr.tally(f"controlled model nc={nc}")
+        U = Q.np_gate(name, params)
+        try:
+            real = controlled_gate(Qobj(U), controls=list(qs[:nc]), targets=[qs[nc]], N=N, control_value=cv).full()
+        except Exception as e:
+            corr.disagree(inp, repr(e), "matrix", "controlled_gate raised where the model gives a matrix")
+            continue
+        model = Q.embed(Q.eval_table(tab, params), list(qs), N)
+        if real.shape != model.shape or not np.allclose(real, model, atol=1e-9):
+            corr.disagree(inp, "matrix", "matrix", "controlled_gate differs from the block-diagonal model (ptctrl) placed on controls+targets")
+
+
 def correspond(ctx):
     corr = Corr(rule="every library gate name x every definition path (function, name dispatch, class, circuit) x parameter samples "
                      "(pi/16 grid, boundary 0,+-pi,2pi,1e-9,>2pi, random); non-trivial = parametrised or multi-qubit gate; "
@@ -217,6 +255,7 @@ def correspond(ctx):
         if abs(Q.eval_poly(gp, [th]) - impl[0, 0]) > 1e-9:
             corr.disagree(dict(gate="GLOBALPHASE", params=[th]), str(impl[0, 0]), str(Q.eval_poly(gp, [th])), "globalphase scalar")
     _controlled_cases(ctx, corr)
+    _controlled_model_cases(ctx, corr, disp)
     corr.extra["translated"] = {k: (len(v) if isinstance(v, list) else v) for k, v in _gen.items() if k != "class_map"}
     return corr
 
